@@ -3,7 +3,7 @@ import ast
 import re
 
 from ..pm import AnalysisError, norm_src, func_params
-from ..flow import CFG, ENTRY, attr_chain
+from ..flow import implied_literals, CFG, ENTRY, attr_chain
 from ..astutil import replace_node, call_name, parents
 from ..e6_algebra import to_rat, Rat, Poly, NotScalarArithmetic, forward_env
 from ..e2_tables import TableEval
@@ -262,7 +262,7 @@ def run(pm, ctx):
                 probs.append(f"the affinity block is not affinity_matrix[{iv}][:, {iv}]")
             else:
                 ctx.unrecognised("C10-b", site + " (affinity block)", f"`{asrc[:80]}`")
-            if asrc in good and not any(isinstance(h, ast.If) and norm_src(h.test) == "affinity_matrix is not None" and br for h, br in cfg.control_conditions(arr[0])):
+            if asrc in good and ("affinity_matrix is None", False) not in implied_literals(arr[0]):
                 probs.append("the affinity block is not guarded by `affinity_matrix is not None`")
             if len(non) != 1:
                 probs.append("no None affinity for GEMINIs without affinity")
